@@ -754,3 +754,58 @@ Proof.
   destruct (steps_ok_picks SelSampling (seq 0 m) m _ [] H) as [HF HN]. split; [exact HN|].
   rewrite Forall_forall in *. intros p Hp. destruct (HF p Hp) as [Hin _]. apply in_seq in Hin. lia.
 Qed.
+
+
+(* =====================================================================================
+   BatchBALD (greedy_selection=False), as written
+   ===================================================================================== *)
+Lemma noises_ok_repeat n k nz : noise_ok n nz -> noises_ok n k (repeat nz k).
+Proof. intros H. split; [rewrite repeat_length; lia|]. apply Forall_forall. intros x Hx. apply repeat_spec in Hx. subst x. exact H. Qed.
+
+(* the internal loop of batch_bald alone yields an accepted trace / a valid batch in candidate space *)
+Theorem bald_internal_accepted (m : nat) (score : list nat -> list val) (k : nat) (noiseA : list Z) :
+  (forall prev, length (score prev) = m /\ Forall nonnan (score prev)) -> (k <= m)%nat -> noise_ok m noiseA ->
+  psteps_ok SelMax (seq 0 m) [] m (bald_internal m score k noiseA) = true /\ length (bald_internal m score k noiseA) = k.
+Proof.
+  intros Hs Hk Hn. unfold bald_internal. apply oracle_loop_accepted.
+  - intros prev. rewrite seq_length. apply Hs.
+  - apply seq_NoDup.
+  - rewrite Forall_forall. intros i Hi. apply in_seq in Hi. lia.
+  - rewrite seq_length. exact Hk.
+  - apply noises_ok_repeat. exact Hn.
+Qed.
+
+(* a row with a unique maximiser: rand_argmax does not depend on the noise *)
+Lemma rand_argmax_unique (a : list val) (noise : list Z) (v : Z) (j : nat) :
+  noise_ok (length a) noise -> nanmax a = Some v ->
+  (forall i, (i < length a)%nat -> nth i a None = Some v -> i = j) -> rand_argmax a noise = j.
+Proof.
+  intros Hn Hm Hu. destruct (rand_argmax_optimal a noise v Hn Hm) as [H1 H2]. apply Hu; assumption.
+Qed.
+
+(* one step of BatchBALD: the second tie-break (query, noise of the strategy's generator, sample space) selects the image of
+   the first one (batch_bald, noise of RandomState(0), candidate space) whenever the row has a unique maximiser *)
+Theorem bald_step_agrees (n : nat) (mapping : list nat) (r : list val) (nzA nzB : list Z) (v : Z) :
+  NoDup mapping -> length r = length mapping -> Forall (fun j => (j < n)%nat) mapping ->
+  noise_ok (length r) nzA -> noise_ok n nzB -> nanmax r = Some v ->
+  let row := scatter mapping r (repeat None n) in
+  (forall i j, (i < n)%nat -> (j < n)%nat -> nth i row None = Some v -> nth j row None = Some v -> i = j) ->
+  rand_argmax row nzB = nth (rand_argmax r nzA) mapping O.
+Proof.
+  intros Hnd Hl Hlt HA HB Hm row Hu.
+  destruct (rand_argmax_optimal r nzA v HA Hm) as [Hp Hpv].
+  destruct (scatter_nanmax mapping r n v (rand_argmax r nzA) Hnd Hl Hlt Hm Hpv Hp) as [Hq Hrm]. fold row in Hq, Hrm.
+  assert (Hlen : length row = n) by (unfold row; rewrite scatter_length, repeat_length; reflexivity).
+  assert (Hin : (nth (rand_argmax r nzA) mapping O < n)%nat).
+  { rewrite Forall_forall in Hlt. apply Hlt. apply nth_In. lia. }
+  apply (rand_argmax_unique row nzB v); [rewrite Hlen; exact HB|exact Hrm|].
+  intros i Hi Hiv. rewrite Hlen in Hi. apply (Hu i _ Hi Hin Hiv Hq).
+Qed.
+
+(* ... and does not otherwise: two tied candidates, the internal loop takes 1 then 0, query takes 0 twice *)
+Example bald_two_tiebreaks_duplicate_refuted :
+  let score := fun _ : list nat => [Some 5; Some 5] in
+  let t := bald_trace 2 2 [0; 1]%nat score 2 [1; 2] [[2; 1]; [1; 1]] in
+  map fst (bald_internal 2 score 2 [1; 2]) = [1; 0]%nat /\ map fst t = [0; 0]%nat /\
+  psteps_ok SelMax [0; 1]%nat [] 2 t = false.
+Proof. vm_compute. repeat split. Qed.
